@@ -110,6 +110,11 @@ func runReplay(dir string) (status, output string) {
 	if strings.Contains(filepath.Base(dir), "_hang_") {
 		to = 30 * time.Second
 	}
+	if b, err := os.ReadFile(filepath.Join(dir, "cex.json")); err == nil && strings.Contains(string(b), `"tag": "sched"`) {
+		// a schedule-dependent counterexample rarely reproduces under the native
+		// scheduler; it gets one short attempt
+		to = 40 * time.Second
+	}
 	ctx, cancel := context.WithTimeout(context.Background(), to)
 	defer cancel()
 	cmd := exec.CommandContext(ctx, "/bin/sh", filepath.Join(dir, "replay.sh"))
